@@ -361,6 +361,7 @@ def e2e(c, root):
             shutil.rmtree(d, ignore_errors=True)
     stats["fixture_files_alone"] = nfix
     checked += ordered_pairs(c, root, stats)
+    checked += project_folder_neighbours(c, root, stats)
     checked += stem_names(c, root, stats)
     c.coverage["files_checked"] = checked
     c.coverage["distribution"] = stats
@@ -484,6 +485,66 @@ def ordered_pairs(c, root, stats):
                         break
             shutil.rmtree(d, ignore_errors=True)
     stats["ordered_pairs"] = done
+    return done
+
+
+def project_folder_neighbours(c, root, stats):
+    """a format whose export is a FOLDER with a project file and a sub-folder of model files (Omni: model.yaml + views/): another format's single-file export of a lookup
+    model is put next to the project file, and into the sub-folder -- every file still goes to the adapter of its own format"""
+    from sidemantic import SemanticLayer
+    from sidemantic.loaders import load_from_directory
+    done = 0
+    for host in ("omni",):
+        if listed_class(c, host, ("relationship", "many_to_one")):
+            continue
+        look = {}
+        for k in [k for k in LOADER_NAME if k not in ("atscale_sml", host)]:
+            try:
+                if not listed_class(c, k, ("dims_only_single", None)):
+                    fs = [fp for fp in export_files(k, ("dims_only_single", None), root) if "lookup_t" in (own_models(k, fp) or [])]
+                    if len(fs) == 1:
+                        look[k] = fs[0]
+            except Exception:
+                pass
+        for b in sorted(look):
+            for where in ("", "views"):
+                try:
+                    files = export_files(host, ("relationship", "many_to_one"), root)
+                except Exception:
+                    break
+                top = os.path.commonpath(files)
+                hosted = [(fp, own_models(host, fp)) for fp in files]
+                tb = os.path.join(top, where, "lookup_t" + os.path.splitext(look[b])[1])
+                if not os.path.isdir(os.path.dirname(tb)):
+                    continue
+                shutil.copy(look[b], tb)
+                if not own_models(b, tb):
+                    continue
+                logging.disable(logging.CRITICAL)
+                try:
+                    L = SemanticLayer(connection="duckdb:///:memory:", auto_register=False)
+                    load_from_directory(L, top)
+                    err = None
+                except Exception as e:
+                    err = e
+                finally:
+                    logging.disable(logging.NOTSET)
+                done += 1
+                want = [(host, fp, names) for fp, names in hosted if names] + [(b, tb, own_models(b, tb))]
+                for key, target, names in want:
+                    bad = None
+                    for n in names or []:
+                        m = None if err is not None else L.graph.models.get(n)
+                        fmt = getattr(m, "_source_format", None) if m is not None else None
+                        if err is not None or m is None or fmt != LOADER_NAME[key]:
+                            bad = (n, ("loading fails: %s" % str(err)[:100]) if err is not None else "is missing" if m is None else "was loaded as " + str(fmt))
+                            break
+                    if bad:
+                        c.violation("a %s file inside a %s project folder (%s) is not handled by its own adapter / disturbs the project's files: model %s %s" % (b, host, where or "next to the project file", bad[0], bad[1]),
+                                    {"kind": "project_folder", "host": host, "other": b, "placed_in": where or ".", "file_of_model": os.path.relpath(target, top), "model": bad[0],
+                                     "content_other": open(tb, errors="replace").read()[:500]})
+                        break
+    stats["project_folder_neighbours"] = done
     return done
 
 
